@@ -16,7 +16,20 @@
      out_bytes l           the concatenated bytes of the data items of [l]
      dec_quanta            an independent reader of grpc-web-text: decodes every 4-character
                            quantum on its own (padding may occur wherever the sender flushed)
-     request_kind          the four cases of GrpcWebService::call *)
+     request_kind          the four cases of GrpcWebService::call
+     wcall, wc_poll_frame, wc_is_end_stream, wc_size_hint
+                           GrpcWebCall as an http_body::Body on the server side (direction,
+                           encoding, undecoded base64 remainder)
+     hyper_encode m a evs / hyper_request e m evs
+                           the same bodies read the way hyper reads a body: is_end_stream() is
+                           asked before the first poll and after every data frame, the consumer
+                           stops when it is true; m = how the INNER body answers is_end_stream
+                           (1 = only once all its frames were yielded: the http_body contract)
+     hint_covers h n       the size hint h = (lower, upper) is true of n bytes
+     passthrough evs       the frames of a script up to its end / first error, unchanged
+     wc_polls n c evs      n polls of poll_frame from state c, EVERY result recorded
+     settle l              l without its Pending results, cut after the first item that is
+                           neither data nor trailers *)
 From Verif Require Import Lib.Bytes Lib.Obs Lib.BE32 Lib.Base64 Lib.HeaderMap.
 From Verif Require Import Model.Frame Model.WebServer Proofs.WebServer.
 From Verif Require Model.WebClient Proofs.WebClient.
@@ -44,29 +57,47 @@ Theorem c16_web_resp_text : forall evs t,
     Some (concat (datas evs) ++ trailers_frame t).
 Proof. exact resp_text. Qed.
 
-(* Body::is_end_stream / size_hint of the translated body are the inner body's (call.rs
-   is_end_stream, size_hint).  A hyper-like consumer - it asks is_end_stream() before the first
-   poll and after every data frame and stops polling when the answer is true - over an inner
-   body that honours the http_body contract (true only after its trailers were yielded, as
-   tonic's EncodeBody): every data item AND the trailers frame are taken before it stops *)
+(* Body::is_end_stream of the translated response body.  A hyper-like consumer - it asks
+   is_end_stream() before the first poll and after every data frame and stops polling when the
+   answer is true - over an inner body that honours the http_body contract (true only after all
+   its frames were yielded, as tonic's EncodeBody): every data item AND the trailers frame are
+   taken before it stops *)
 Theorem c16_web_resp_hyper : forall e evs t,
   only_data_or_pending evs = true -> nlen (encode_trailers t) <= U32_MAX ->
   hyper_encode 1 e (evs ++ [EvTrailers t]) =
   (map (fun d => SData (encode_bytes e d)) (datas evs) ++ [SData (encode_bytes e (trailers_frame t))], true).
 Proof. exact resp_hyper. Qed.
 
-(* is_end_stream in the Encode direction against the WHOLE state of the call (staging buffer
-   [buf] and inner body): when it answers true NOTHING more is delivered.  poll_encode hands
-   out everything in the poll that produced it; an encoder that staged output in [buf] (and kept
-   `inner.is_end_stream()`) would refute this statement, and the sized eos.response_sized kinds
-   of the harness (message sizes mined around every numeric threshold of call.rs, read by a
-   hyper-like consumer) would produce the size at which the tail is lost *)
-Theorem c16_web_encode_is_end_stream_contract : forall e buf evs,
-  encode_is_end_stream 1 buf evs = true -> drain_encode_st e buf evs = [SNone].
-Proof. exact encode_is_end_stream_contract. Qed.
+(* ... and for EVERY script of the inner body (errors, trailers anywhere or missing) and both
+   encodings: what the hyper-like consumer takes, plus the end of stream it infers from
+   is_end_stream, is exactly what a poll-until-None consumer reads (obs_response_hyper evaluates
+   hyper_encode, obs_call / obs_response evaluate drain_encode).  An is_end_stream that answers
+   true while an item is still to come - an encoder that stages output, a trailers frame not yet
+   handed out - refutes this statement. *)
+Theorem c16_web_resp_hyper_complete : forall e evs,
+  let '(l, b) := hyper_encode 1 e evs in
+  l ++ (if b then [SNone] else []) = drain_encode e evs.
+Proof. exact hyper_encode_complete. Qed.
 
-Theorem c16_web_encode_stateless : forall e buf evs, drain_encode_st e buf evs = drain_encode e evs.
-Proof. exact drain_encode_st_eq. Qed.
+(* Body::size_hint of the translated response body (F-C16a, fix 2dcb76d4): whatever the inner
+   body reports (an exact hint or none; any is_end_stream behaviour [mode]) the hint the caller
+   reads before the first poll is true of the bytes it then receives, in both encodings - a
+   consumer that derives a Content-Length from it (hyper, HTTP/1.1) cuts nothing *)
+Theorem c16_web_resp_size_hint : forall mode exact a revs,
+  hint_covers (resp_size_hint mode exact a revs) (nlen (out_bytes (fst (hyper_encode mode a revs)))).
+Proof. exact resp_size_hint_covers. Qed.
+
+Theorem c16_web_resp_size_hint_drain : forall exact a revs,
+  hint_covers (wc_size_hint (wc_response a) (inner_size_hint exact revs))
+              (nlen (out_bytes (drain_encode a revs))).
+Proof. exact resp_size_hint_covers_drain. Qed.
+
+(* request direction: a binary body keeps the hint of the body it wraps and that hint stays
+   true (the bytes pass unchanged); a text body gives no hint *)
+Theorem c16_web_req_size_hint : forall e exact qevs, only_data_or_pending qevs = true ->
+  hint_covers (wc_size_hint (wc_request e) (inner_size_hint exact qevs))
+              (nlen (out_bytes (drain_request e qevs))).
+Proof. exact req_size_hint_covers. Qed.
 
 (* "decodes to the identical message bytes followed by exactly one trailers frame listing every
    trailer", judged by the grpc-web client decoder of C17 under ANY re-chunking of the emitted
@@ -86,6 +117,25 @@ Theorem c16_web_resp_binary_decodes : forall frames tl sevs cevs,
     concat ds = Verif.Proofs.WebClient.fcat frames.
 Proof. exact resp_binary_decodes. Qed.
 
+(* the same in text mode: the per-quantum reading of the emitted characters is a byte string
+   from which that client decoder, under ANY chunking, recovers the messages and the trailers *)
+Theorem c16_web_resp_text_decodes : forall frames tl sevs,
+  Verif.Proofs.WebClient.frames_ok frames ->
+  Verif.Proofs.WebClient.trailers_ok tl = true ->
+  Verif.Proofs.WebClient.no_leading_space tl = true ->
+  nlen (encode_trailers tl) <= U32_MAX -> nlen tl <= Verif.Model.WebClient.HM_MAX_NAMES ->
+  only_data_or_pending sevs = true -> concat (datas sevs) = Verif.Proofs.WebClient.fcat frames ->
+  forallb bytes_ok (datas sevs) = true -> bytes_ok (encode_trailers tl) = true ->
+  exists B,
+    dec_quanta (out_bytes (drain_encode Base64 (sevs ++ [EvTrailers tl]))) = Some B /\
+    forall cevs, only_data_or_pending cevs = true -> concat (datas cevs) = B ->
+    exists ds,
+      Verif.Model.WebClient.run cevs =
+        map Verif.Model.WebClient.OData ds ++
+        [Verif.Model.WebClient.OTrailers tl; Verif.Model.WebClient.ONone] /\
+      concat ds = Verif.Proofs.WebClient.fcat frames.
+Proof. exact resp_text_decodes. Qed.
+
 (* binary request bodies reach the inner service chunk by chunk, unchanged *)
 Theorem c16_web_req_binary : forall evs, only_data_or_pending evs = true ->
   drain_request NoEnc evs = map SData (datas evs) ++ [SNone] /\
@@ -100,6 +150,61 @@ Theorem c16_web_req_text : forall payload evs,
   concat (datas evs) = enc true payload ->
   exists ds, drain_request Base64 evs = map SData ds ++ [SNone] /\ concat ds = payload.
 Proof. exact req_text. Qed.
+
+(* the same body read by a consumer that stops at is_end_stream() (hyper; is_end_stream of the
+   Decode direction = inner body at its end AND nothing buffered, fix f0f96413): the whole
+   payload, no error; the consumer is stopped either by is_end_stream or by the None *)
+Theorem c16_web_req_text_hyper : forall payload evs,
+  bytes_ok payload = true -> only_data_or_pending evs = true ->
+  concat (datas evs) = enc true payload ->
+  exists ds, concat ds = payload /\
+    (hyper_request Base64 1 evs = (map SData ds, true) \/
+     hyper_request Base64 1 evs = (map SData ds ++ [SNone], false)).
+Proof. exact req_text_hyper. Qed.
+
+(* a binary request body read by that consumer: every chunk, unchanged *)
+Theorem c16_web_req_binary_hyper : forall evs, only_data_or_pending evs = true ->
+  hyper_request NoEnc 1 evs = (map SData (datas evs), true) \/
+  hyper_request NoEnc 1 evs = (map SData (datas evs) ++ [SNone], false).
+Proof. exact req_binary_hyper. Qed.
+
+(* M11 - text bodies that are not ONE canonical padded base64 text.
+   (1) ANY text body whatever (padded, unpadded, several independently padded segments, garbage),
+   cut anywhere: the data items the inner service receives before the body ends or fails are
+   the per-quantum decoding of a prefix of the characters sent, and a clean end is reported only
+   when EVERY character has been decoded.  The inner service never sees bytes that are not the
+   original bytes and never a silently shortened body; the only other outcome is an error. *)
+Theorem c16_web_req_text_sound : forall evs, only_data_or_pending evs = true ->
+  let W := concat (datas evs) in
+  exists ds last k,
+    drain_request Base64 evs = map SData ds ++ [last] /\
+    (4 * k <= length W)%nat /\
+    dec_quanta (firstn (4 * k) W) = Some (concat ds) /\
+    (last = SNone -> (4 * k)%nat = length W) /\
+    (last = SNone \/ last = SErr SE_BASE64 \/ last = SErr SE_LEFTOVER).
+Proof. exact req_text_sound. Qed.
+
+(* (2) a canonical text followed by one to three stray characters: the payload arrives, then
+   the error "malformed base64 request" *)
+Theorem c16_web_req_text_leftover : forall payload extra evs,
+  bytes_ok payload = true -> only_data_or_pending evs = true ->
+  (0 < length extra < 4)%nat ->
+  concat (datas evs) = enc true payload ++ extra ->
+  exists ds, drain_request Base64 evs = map SData ds ++ [SErr SE_LEFTOVER] /\ concat ds = payload.
+Proof. exact req_text_leftover. Qed.
+
+(* (3) the UNPADDED base64 text of a payload whose length is not a multiple of 3, under any
+   chunking: everything but the last one or two bytes arrives, then the same error - the last
+   quantum is never decoded although the engine is Indifferent to padding.  The property speaks
+   of "base64 text"; RFC 4648 base64 and grpc-web-text are padded, so this is recorded as an
+   observation, not a defect: the request FAILS, nothing wrong is delivered. *)
+Theorem c16_web_req_text_unpadded : forall payload evs,
+  bytes_ok payload = true -> only_data_or_pending evs = true ->
+  (length payload mod 3 <> 0)%nat ->
+  concat (datas evs) = enc false payload ->
+  exists ds, drain_request Base64 evs = map SData ds ++ [SErr SE_LEFTOVER] /\
+             concat ds = firstn (3 * (length payload / 3)) payload.
+Proof. exact req_text_unpadded. Qed.
 
 (* the table of the four cases, for ALL methods, versions and header maps: the decision looks
    only at the method, the version and the FIRST content-type value *)
@@ -124,10 +229,14 @@ Theorem c16_web_req_headers : forall h k,
     else hm_get_all h k.
 Proof. exact coerce_request_spec. Qed.
 
-(* the response carries the content-type of the encoding the Accept header asked for *)
+(* the response carries the content-type of the encoding the Accept header asked for and NO
+   content-length (F-C16b, fix 7e0a074f: the inner service described the untranslated body);
+   every other header is untouched *)
 Theorem c16_web_resp_headers : forall h a k,
   hm_get_all (coerce_response_headers h a) k =
-    if bytes_eqb k H_CONTENT_TYPE then [to_content_type a] else hm_get_all h k.
+    if bytes_eqb k H_CONTENT_TYPE then [to_content_type a]
+    else if bytes_eqb k H_CONTENT_LENGTH then []
+    else hm_get_all h k.
 Proof. exact coerce_response_spec. Qed.
 
 (* the whole translated call *)
@@ -140,6 +249,37 @@ Theorem c16_web_translate_call : forall method version headers qevs rstatus rhea
       olist sout_tr (drain_request e qevs); Nn rstatus;
       hm_canon (coerce_response_headers rheaders a); olist sout_tr (drain_encode a revs)].
 Proof. exact translate_call. Qed.
+
+(* "other HTTP/2 requests pass through untouched": headers, status and every frame of both
+   bodies (data and HTTP trailers), for ALL scripts *)
+Theorem c16_web_pass_through_call : forall method version headers qevs rstatus rheaders revs,
+  ~ is_web_type (hm_get headers H_CONTENT_TYPE) -> version = HTTP_2 ->
+  obs_call method version headers qevs rstatus rheaders revs =
+  Nd [Nn 4; hm_canon headers; olist sout_tr (passthrough qevs); Nn rstatus; hm_canon rheaders;
+      olist sout_tr (passthrough revs)].
+Proof. exact pass_through_call. Qed.
+
+(* "non-POST grpc-web requests get 405, other HTTP/1 requests 400": the inner service is not
+   called *)
+Theorem c16_web_immediate_call : forall method version headers qevs rstatus rheaders revs,
+  (is_web_type (hm_get headers H_CONTENT_TYPE) -> method <> M_POST ->
+     obs_call method version headers qevs rstatus rheaders revs = Nd [Nn 2; Nn 405]) /\
+  (~ is_web_type (hm_get headers H_CONTENT_TYPE) -> version <> HTTP_2 ->
+     obs_call method version headers qevs rstatus rheaders revs = Nd [Nn 3; Nn 400]).
+Proof. exact immediate_call. Qed.
+
+(* one state machine: the poll-until-the-end consumers of the theorems above (what obs_call
+   evaluates) are, for EVERY script, the poll-by-poll run of GrpcWebCall::poll_frame over its
+   state (wc_polls over wc_poll_frame: what the polls.* kinds evaluate) with the Pending results
+   dropped, up to the first item that is neither data nor trailers *)
+Theorem c16_web_polls_drain_response : forall e evs,
+  settle (wc_polls (S (length evs)) (wc_response e) evs) = drain_encode e evs.
+Proof. exact polls_drain_response. Qed.
+
+Theorem c16_web_polls_drain_request : forall e evs,
+  settle (wc_polls (match e with Base64 => b64_polls evs | NoEnc => S (length evs) end) (wc_request e) evs) =
+  drain_request e evs.
+Proof. exact polls_drain_request. Qed.
 
 (* the only panic site: the assert in make_trailers_frame *)
 Theorem c16_web_trailers_frame_panic : forall t,
@@ -163,19 +303,61 @@ Example c16_resp_text_example :
   Some (frame 0 [104; 105] ++ trailers_frame ex_t).
 Proof. vm_compute. reflexivity. Qed.
 
+(* the premises of c16_web_resp_binary_decodes / _text_decodes hold for the stream of ex_revs *)
+Example c16_resp_decodes_premises :
+  Verif.Proofs.WebClient.frames_ok [(0, [104; 105])] /\
+  Verif.Proofs.WebClient.trailers_ok ex_t = true /\
+  Verif.Proofs.WebClient.no_leading_space ex_t = true /\
+  nlen ex_t <= Verif.Model.WebClient.HM_MAX_NAMES /\
+  concat (datas ex_revs) = Verif.Proofs.WebClient.fcat [(0, [104; 105])].
+Proof.
+  split.
+  { apply Forall_cons; [|apply Forall_nil]. split; [now left|vm_compute; discriminate]. }
+  split; [vm_compute; reflexivity|]. split; [vm_compute; reflexivity|].
+  split; [vm_compute; discriminate|]. vm_compute; reflexivity.
+Qed.
+
 (* "AAAAAAFB" = base64 of frame(0,"A"), cut inside both quanta *)
 Example c16_req_text_example :
   drain_request Base64 [EvData [65; 65; 65]; EvPending; EvData [65; 65; 65; 70]; EvData [66]] =
   [SData [0; 0; 0]; SData [0; 1; 65]; SNone].
 Proof. vm_compute. reflexivity. Qed.
 
-(* NOTED, not claimed: a text request made of two independently padded segments ("QQ==" "QkM=")
-   is accepted when a chunk boundary falls between the segments and rejected when both arrive
-   together; the property speaks of one base64 body *)
+(* OBSERVATION (M11b), not a defect: a text request made of two independently padded segments
+   ("QQ==" "QkM=") is accepted when a chunk boundary falls between the segments and rejected when
+   both arrive together; the property speaks of one base64 text.  In both cases
+   c16_web_req_text_sound applies: what arrives is the original bytes or an error. *)
 Example c16_two_segments_chunking_dependent :
   drain_request Base64 [EvData [81; 81; 61; 61]; EvData [81; 107; 77; 61]] = [SData [65]; SData [66; 67]; SNone] /\
   drain_request Base64 [EvData [81; 81; 61; 61; 81; 107; 77; 61]] = [SErr SE_BASE64].
 Proof. split; vm_compute; reflexivity. Qed.
+
+(* the unpadded text "AAAAAAFB" + "QQ" (frame(0,"A") ++ "A" without padding), cut in the middle:
+   the frame arrives, the last byte never does, the body fails *)
+Example c16_req_text_unpadded_example :
+  drain_request Base64 [EvData [65; 65; 65; 65; 65]; EvData [65; 70; 66; 81; 81]] =
+  [SData [0; 0; 0]; SData [0; 1; 65]; SErr SE_LEFTOVER] /\
+  enc false [0; 0; 0; 0; 1; 65; 65] = [65; 65; 65; 65; 65; 65; 70; 66; 81; 81].
+Proof. split; vm_compute; reflexivity. Qed.
+
+(* F-C16a: the witness.  An inner body with an exact size hint (one 6-byte message frame, then
+   trailers): before the fix the translated body reported the inner hint (6, Some 6) although it
+   yields 26 bytes (binary) / 36 characters (text) - hyper sent `content-length: 6` and cut the
+   trailers frame.  With the fix the hint is (0, None). *)
+Definition ex_f16a : list ev :=
+  [EvData [0; 0; 0; 0; 1; 65]; EvTrailers [([103;114;112;99;45;115;116;97;116;117;115], [48])]].
+Example c16_size_hint_before_fix_refuted :
+  ~ hint_covers (wc_size_hint_before_fix (wc_response NoEnc) (inner_size_hint true ex_f16a))
+                (nlen (out_bytes (drain_encode NoEnc ex_f16a))) /\
+  ~ hint_covers (wc_size_hint_before_fix (wc_response Base64) (inner_size_hint true ex_f16a))
+                (nlen (out_bytes (drain_encode Base64 ex_f16a))) /\
+  nlen (out_bytes (drain_encode NoEnc ex_f16a)) = 26 /\
+  nlen (out_bytes (drain_encode Base64 ex_f16a)) = 36 /\
+  wc_size_hint (wc_response Base64) (inner_size_hint true ex_f16a) = (0, None).
+Proof.
+  repeat split; try (vm_compute; reflexivity);
+    intros [_ H]; vm_compute in H; apply H; reflexivity.
+Qed.
 
 Print Assumptions c16_web_resp_binary.
 Print Assumptions c16_web_resp_text.
@@ -186,6 +368,19 @@ Print Assumptions c16_web_req_text.
 Print Assumptions c16_web_kind_table.
 Print Assumptions c16_web_req_headers.
 Print Assumptions c16_web_translate_call.
+Print Assumptions c16_web_resp_hyper_complete.
+Print Assumptions c16_web_resp_size_hint.
+Print Assumptions c16_web_req_size_hint.
+Print Assumptions c16_web_resp_text_decodes.
+Print Assumptions c16_web_req_text_hyper.
+Print Assumptions c16_web_req_binary_hyper.
+Print Assumptions c16_web_req_text_sound.
+Print Assumptions c16_web_req_text_leftover.
+Print Assumptions c16_web_req_text_unpadded.
+Print Assumptions c16_web_pass_through_call.
+Print Assumptions c16_web_immediate_call.
+Print Assumptions c16_web_polls_drain_response.
+Print Assumptions c16_web_polls_drain_request.
 
 (* the constants written by hand in the model equal the ones regenerated from the Rust source
    (Gen/ConstTables.v, rewritten by rs2v on every run) *)
